@@ -142,8 +142,13 @@ KeepMotifs(rs, ml, P(_)) ==
 
 GapCount(blk) == Cardinality({x \in BlockCells(blk) : GapLike(blk[x[1]][x[2]])})     \* moltype.gaps
 DashCount(blk) == Cardinality({x \in BlockCells(blk) : blk[x[1]][x[2]] = Gap})
-(* fraction of gap characters in the block <= num/den, exactly *)
-GapsOk(blk, num, den) == GapCount(blk) * den <= num * Cardinality(BlockCells(blk))
+(* fraction of gap characters in the block <= the allowed fraction, exactly.  The allowed      *)
+(* fraction is num/den ("exact"), or a value a hair (1e-12) below / above it: the documented     *)
+(* idiom for a strict threshold.  Attainable fractions k/cells differ by far more than that, so  *)
+(* "below" means  fraction < num/den  and "above" means  fraction <= num/den -- no tolerance.    *)
+GapsOk(blk, num, den, hair) ==
+    IF hair = "below" THEN GapCount(blk) * den < num * Cardinality(BlockCells(blk))
+    ELSE GapCount(blk) * den <= num * Cardinality(BlockCells(blk))
 NoDegen(blk, m, allowgap) ==
     \A x \in BlockCells(blk) : blk[x[1]][x[2]] \in Canon(m) \/ (allowgap /\ blk[x[1]][x[2]] = Gap)
 Pred(name, blk) ==
@@ -153,7 +158,10 @@ Pred(name, blk) ==
 
 -----------------------------------------------------------------------------
 (* Argument families (kept small: the history, not the argument, is varied)   *)
-Thresholds == {<<0, 1>>, <<1, 3>>, <<1, 2>>, <<2, 3>>, <<999999, 1000000>>, <<1, 1>>}   \* 999999/1000000 = the default 1 - eps
+Thresholds == {<<0, 1, "exact">>, <<1, 3, "exact">>, <<1, 2, "exact">>, <<2, 3, "exact">>, <<1, 1, "exact">>,
+               <<999999, 1000000, "exact">>,                        \* = the documented default 1 - eps: the argument is LEFT OUT
+               <<1, 3, "below">>, <<1, 2, "below">>, <<2, 3, "below">>, <<1, 1, "below">>, <<1, 2, "above">>}
+Thresholds2 == {<<0, 1, "exact">>, <<1, 2, "exact">>, <<999999, 1000000, "exact">>, <<1, 2, "below">>, <<1, 1, "below">>}   \* with motif_length 2
 Preds == {"nogap", "row1nogap", "true"}
 
 SlicePairs(n) == {<<a, b>> \in (0..n) \X (0..n) : a <= b} \cup (IF n >= 1 THEN {<<n, 0>>, <<n, n - 1>>} ELSE {})
@@ -261,9 +269,9 @@ TakeSeqsNeg(ixs) == TakeSeqsNegT(ixs)
                     /\ Log("TakeSeqs", <<RowNames(TakeRows(rows, SelectSeq([k \in 1..R |-> k], LAMBDA i : i \in ixs))), TRUE>>)
 
 OmitGapPosT(thr, ml) ==
-    /\ Aln /\ ml >= 1 /\ thr[2] >= 1
-    /\ Filtered(KeepMotifs(rows, ml, LAMBDA blk : GapsOk(blk, thr[1], thr[2])))
-OmitGapPos(thr, ml) == OmitGapPosT(thr, ml) /\ Log("OmitGapPos", <<thr[1], thr[2], ml>>)
+    /\ Aln /\ ml >= 1 /\ thr[2] >= 1 /\ thr[3] \in {"exact", "below", "above"}
+    /\ Filtered(KeepMotifs(rows, ml, LAMBDA blk : GapsOk(blk, thr[1], thr[2], thr[3])))
+OmitGapPos(thr, ml) == OmitGapPosT(thr, ml) /\ Log("OmitGapPos", <<thr[1], thr[2], thr[3], ml>>)
 
 NoDegeneratesT(ml, ag) ==
     /\ Aln /\ ml >= 1
@@ -344,7 +352,7 @@ Next ==
     \/ \E cols \in ColTuples(N) : TakePositions(cols, FALSE, ColForm(cols))
     \/ \E ix \in RowLists(R) : TakeSeqs(ix)
     \/ \E ixs \in RowSets(R) : TakeSeqsNeg(ixs)
-    \/ \E thr \in Thresholds, ml \in {1, 2} : (ml = 2 => thr \in {<<0, 1>>, <<1, 2>>, <<999999, 1000000>>}) /\ OmitGapPos(thr, ml)
+    \/ \E thr \in Thresholds, ml \in {1, 2} : (ml = 2 => thr \in Thresholds2) /\ OmitGapPos(thr, ml)
     \/ \E ml \in {1, 2}, ag \in BOOLEAN : NoDegenerates(ml, ag)
     \/ \E p \in Preds, ml \in {1, 2} : (p = "true" => ml = 2) /\ FilteredP(p, ml)
     \/ \E i \in 1..R : DegapRel(i)
